@@ -279,6 +279,9 @@ fn run_unit(args: &Args, rt: &Rt, spec: &PairSpec, header_root: Option<usize>, c
                     signature.insert("saved_kind".to_string(), ty_kind(&b.roots[spec.a].ty).to_string());
                     signature.insert("saved_type".to_string(), b.uni.rust_ty(&b.roots[spec.a].ty, ""));
                     signature.insert("loaded_type".to_string(), b.uni.rust_ty(&b.roots[spec.b].ty, ""));
+                    for fl in checks::data::reach_flags(&b.uni, &b.roots[spec.a].ty) {
+                        signature.insert(format!("reaches_{}", fl), "true".into());
+                    }
                     let replay = json!({
                         "kind": "gate_case", "pair_index": pair_index, "spec": spec, "header_root": header_root,
                         "saved_ty": b.roots[spec.a].ty, "loaded_ty": b.roots[spec.b].ty,
